@@ -241,7 +241,121 @@ class IfcPortArrayConnect(Component):
       s.ifc.rdy[i] //= s.ifc.en
 
 
+@bitstruct
+class Tail2:
+  a: Bits2
+  b: Inner
+  c: Bits4
+  e: Bits1
+
+
+class StructInstBehav(Component):
+  """struct values built inside a block (flat and nested constructor calls)"""
+  def construct(s):
+    s.a = InPort(8); s.b = InPort(8); s.out = OutPort(Inner); s.o2 = OutPort(8); s.w = Wire(Tail2)
+    @update
+    def up_si():
+      s.out @= Inner(s.a[0:3], s.b[3:8])
+      s.w @= Tail2(s.a[6:8], Inner(s.b[0:3], s.a[0:5]), s.b[4:8], s.a[7])
+    @update
+    def up_si2():
+      s.o2 @= concat(s.w.b.a, s.w.b.b) ^ zext(s.w.a, 8) ^ zext(s.w.c, 8) ^ sext(s.w.e, 8)
+
+
+class InnerIfc(Interface):
+  def construct(s):
+    s.msg = InPort(8); s.rdy = OutPort(1)
+
+
+class OuterIfc(Interface):
+  def construct(s):
+    s.inner = [InnerIfc() for _ in range(2)]
+    s.en = InPort(1)
+
+
+class IfcNested(Component):
+  """list of interfaces, each holding a list of interfaces"""
+  def construct(s):
+    s.ifc = [OuterIfc() for _ in range(2)]
+    s.sum = OutPort(8)
+    @update
+    def up_in():
+      s.sum @= s.ifc[0].inner[1].msg + s.ifc[1].inner[0].msg
+      for i in range(2):
+        for j in range(2):
+          s.ifc[i].inner[j].rdy @= s.ifc[i].en & s.ifc[1 - i].inner[j].msg[0]
+
+
+class SubcompBehav(Component):
+  """a parent block drives and reads the ports of a list of children (constant, loop and computed indices)"""
+  def construct(s):
+    s.in_ = InPort(8); s.sel = InPort(2); s.out = OutPort(8); s.pick = OutPort(8)
+    s.c = [Inc(i + 2) for i in range(4)]
+    @update
+    def up_sb_drive():
+      s.c[0].in_ @= s.in_
+      for i in range(1, 4):
+        s.c[i].in_ @= s.c[i - 1].out ^ i
+    @update
+    def up_sb_read():
+      s.out @= s.c[3].out + s.c[1].out
+      s.pick @= s.c[s.sel].out
+
+
+class ElifChain(Component):
+  def construct(s):
+    s.a = InPort(8); s.b = InPort(8); s.m = InPort(3); s.o1 = OutPort(8); s.o2 = OutPort(8); s.f = OutPort(1)
+    @update
+    def up_elif():
+      s.o2 @= 0
+      s.f @= 0
+      if s.m == 0:   s.o1 @= s.a + s.b
+      elif s.m == 1: s.o1 @= s.a - s.b
+      elif (s.m == 2) | (s.m == 5):
+        s.o1 @= s.a & s.b
+        if s.a > s.b: s.o2 @= s.a
+        else:         s.o2 @= s.b
+      elif s.m[2] & ~s.m[0]:
+        s.o1 @= s.a ^ s.b
+        s.f @= s.a[7] ^ s.b[0]
+      else:
+        s.o1 @= 0xA5
+        if s.a == s.b: s.f @= 1
+
+
+class VarIdx2D(Component):
+  """2-D port array read with variable indices; 1-D wire array written with a variable index"""
+  def construct(s):
+    s.arr = [[InPort(4) for _ in range(2)] for _ in range(4)]
+    s.i = InPort(2); s.j = InPort(1); s.a = InPort(4); s.out = OutPort(4); s.o2 = OutPort(4)
+    s.w = [Wire(4) for _ in range(4)]
+    @update
+    def up_vi():
+      s.out @= s.arr[s.i][s.j]
+      for k in range(4): s.w[k] @= s.arr[k][1]
+      s.w[s.i] @= s.a
+    @update
+    def up_vi2():
+      s.o2 @= s.w[0] ^ s.w[1] ^ s.w[2] ^ s.w[3]
+
+
+class NestedLoops(Component):
+  def construct(s):
+    s.a = InPort(8); s.b = InPort(8); s.out = OutPort(8); s.cnt = OutPort(8)
+    @update
+    def up_nl():
+      s.out @= 0
+      s.cnt @= 0
+      for i in range(2):
+        for j in range(4):
+          s.out[i * 4 + j] @= s.a[j * 2 + i] ^ s.b[7 - (i * 4 + j)]
+          if s.a[i] & s.b[j]:
+            s.cnt @= s.cnt + (i + j + 1)
+
+
 DESIGNS = {
+  'x:StructInstBehav': StructInstBehav, 'x:IfcNested': IfcNested, 'x:SubcompBehav': SubcompBehav, 'x:ElifChain': ElifChain,
+  'x:VarIdx2D': VarIdx2D, 'x:NestedLoops': NestedLoops,
   'x:NestedStructIn': NestedStructIn, 'x:IfcPortArray': IfcPortArray, 'x:IfcPortArrayConnect': IfcPortArrayConnect,
   'x:SeqTemps': SeqTemps, 'x:CombTemps': CombTemps,
   'x:Grid2D': Grid2D, 'x:Grid2DConnect': Grid2DConnect, 'x:PortArray2D': PortArray2D, 'x:PortArray2DConnect': PortArray2DConnect,
